@@ -12,6 +12,7 @@ import (
 	"net"
 	"net/http"
 	"net/http/httptest"
+	"net/url"
 	"os"
 	"os/exec"
 	"path/filepath"
@@ -32,6 +33,8 @@ import (
 	"verifharness/internal/ref"
 )
 
+var cliLargeSizes = gen.Sizes{Min: 264 * 1024, Avg: 300 * 1024, Max: 512 * 1024}
+
 var cliSizes = gen.Sizes{Min: 1024, Avg: 2048, Max: 4096} // -m 1:2:4 (the CLI takes KiB)
 
 func genCLI(t *rapid.T) Case {
@@ -40,6 +43,10 @@ func genCLI(t *rapid.T) Case {
 	c.Sizes = cliSizes
 	c.N = rapid.SampledFrom([]int{1, 2, 4, 10, 16}).Draw(t, "n")
 	c.Pieces = dupBlob(t, c.Sizes, int(c.Sizes.Max)*rapid.IntRange(1, 40).Draw(t, "mult"))
+	if rapid.SampledFrom(largeMix[:25]).Draw(t, "large") { // -m 264:300:512: every chunk but the last is above 256 KiB
+		c.Sizes = cliLargeSizes
+		c.Pieces = dupBlob(t, c.Sizes, int(c.Sizes.Max)*rapid.IntRange(1, 3).Draw(t, "lmult")+rapid.IntRange(0, 70_000).Draw(t, "lrest"))
+	}
 	c.Retry = rapid.SampledFrom([]int{1, 1, 1, 0, 3}).Draw(t, "retry")
 	c.Faults = genFaults(t, c.Op)
 	if rapid.IntRange(0, 9).Draw(t, "prefill") < 3 {
@@ -185,6 +192,10 @@ func runCLI(c Case) (o hx.Outcome) {
 		return o
 	}
 	sz := cliSizes
+	if c.Sizes.Max > cliSizes.Max && c.Sizes.Min%1024 == 0 && c.Sizes.Avg%1024 == 0 && c.Sizes.Max%1024 == 0 && c.Sizes.Min >= 1024 && c.Sizes.Avg >= c.Sizes.Min && c.Sizes.Max > c.Sizes.Avg {
+		sz = c.Sizes
+	}
+	mArg := fmt.Sprintf("%d:%d:%d", sz.Min/1024, sz.Avg/1024, sz.Max/1024)
 	blob := gen.Expand(c.Pieces)
 	n := clamp(c.N, 1, 64)
 	retry := clamp(c.Retry, 0, 5)
@@ -257,7 +268,7 @@ func runCLI(c Case) (o hx.Outcome) {
 		prefill()
 		dx.WriteFile(dir, "blob", blob)
 		outIndex = filepath.Join(dir, "out.caibx")
-		args = append([]string{"make", "-m", "1:2:4", "-s", dst.url()}, common...)
+		args = append([]string{"make", "-m", mArg, "-s", dst.url()}, common...)
 		args = append(args, outIndex, filepath.Join(dir, "blob"))
 	case "cli-chop":
 		prefill()
@@ -312,7 +323,7 @@ func runCLI(c Case) (o hx.Outcome) {
 		dx.WriteFile(tree, "b.bin", blob[third:2*third])
 		dx.WriteFile(filepath.Join(tree, "sub"), "c.bin", blob[2*third:])
 		outIndex = filepath.Join(dir, "out.caidx")
-		args = append([]string{"tar", "-i", "-m", "1:2:4", "-s", dst.url()}, common...)
+		args = append([]string{"tar", "-i", "-m", mArg, "-s", dst.url()}, common...)
 		args = append(args, outIndex, tree)
 	default:
 		o.Desc = map[string]any{"op": op, "unknown": true}
@@ -432,6 +443,25 @@ func runCLI(c Case) (o hx.Outcome) {
 					o.Fail(p+"invalid-chunk-after-success", "desync %s exited 0 but the backing store holds %d bytes under %s (chunk %d, size %d in the index) that do not match", op[4:], len(data), shortID(ch.ID), i, ch.Size)
 				}
 				invalid++
+			}
+		}
+		// read back through desync's own path: RemoteHTTP -> HTTPHandler -> LocalStore
+		rbInput := blob
+		if op == "cli-tar" {
+			rbInput = catar
+		}
+		if u, e := url.Parse(dst.url()); e == nil {
+			if rs, e := desync.NewRemoteHTTPStore(u, desync.StoreOptions{}); e == nil {
+				if readBackThrough(&o, p, "the HTTP chunk server", rs, must, rbInput) > 0 {
+					o.Class("readback:desync-getchunk", "cli:readback")
+					for _, ch := range must {
+						if ch.Size > kib256 {
+							o.Class("chunk>256KiB:compressed-target", "cli:chunk>256KiB")
+							break
+						}
+					}
+				}
+				rs.Close()
 			}
 		}
 		if produced != nil {
